@@ -627,6 +627,8 @@ Record cverdict := {
   cv_model_sel : bool;             (* the model planners produce a SELECT *)
   cv_wrefs : bool;                 (* ... whose WithRefs carry the queries their aliases are bound to *)
   cv_model_text : bool;            (* ... and whose text is the implementation's SQL, byte for byte *)
+  cv_ref_defined : bool;           (* every line_format template has a reference value (tpl_plain): otherwise run_lstages answers
+                                      None for every line and "no line" is not an expectation - the case is not judged *)
   cv_dbs : list dbverdict
 }.
 
@@ -650,6 +652,7 @@ Definition check_case (s : scase) : cverdict :=
      cv_model_text := match msel with
                       | Some m => match render m (c_cluster c) with Some t => String.eqb t (sc_sql s) | None => false end
                       | None => false end;
+     cv_ref_defined := forallb (fun st => match st with PLineFormat t => tpl_plain t | _ => true end) (sel_pipeline q);
      cv_dbs := map (fun d =>
        let '(vi, got) := judge rg re pf jg hl tie_id fin q c d impl in
        let '(vr, _) := judge rg re pf jg hl tie_rev fin q c d impl in
